@@ -1213,6 +1213,51 @@ func (e *Engine) evalSpecHelper(st *State, call *ast.CallExpr, name string) Valu
 		x := e.bytesOperand(st, call.Args[0])
 		y := e.bytesOperand(st, call.Args[1])
 		return BoolV{e.lexLess(x, y)}
+	case "gget", "gsame", "gsameExcept":
+		cv := e.constOf(call.Args[0])
+		if cv == nil {
+			e.fail(call, "%s needs a constant name", name)
+		}
+		gname := "gm_" + sanitize(strings.Trim(cv.ExactString(), "\""))
+		e.declareUF(gname, fmt.Sprintf("(declare-fun %s () Int)", gname))
+		e.ghostMapAxiom(gname, 0)
+		ref := T{gname, SInt}
+		e.ensureMapHeaps(st)
+		keyOf := func(a ast.Expr) T {
+			v := e.eval(st, a)
+			return e.flatten(st, v, e.typeOf(a))[0]
+		}
+		switch name {
+		case "gget":
+			return IntV{Sel(Sel(st.ghost["MapV"], ref), keyOf(call.Args[1]))}
+		default:
+			if e.oldState == nil {
+				return BoolV{tTrue}
+			}
+			e.ensureMapHeaps(e.oldState)
+			e.nsym++
+			qv := fmt.Sprintf("gq!%d", e.nsym)
+			q := T{qv, SInt}
+			var ne []T
+			for _, a := range call.Args[1:] {
+				ne = append(ne, Ne(q, keyOf(a)))
+			}
+			return BoolV{Forall([]string{qv}, Implies(And(ne...), Eq(Sel(Sel(st.ghost["MapV"], ref), q), Sel(Sel(e.oldState.ghost["MapV"], ref), q))))}
+		}
+	case "sameBlock":
+		a, aok := e.eval(st, call.Args[0]).(SliceV)
+		b, bok := e.eval(st, call.Args[1]).(SliceV)
+		if !aok || !bok {
+			e.fail(call, "sameBlock needs slices")
+		}
+		return BoolV{Eq(a.blk, b.blk)}
+	case "disjoint":
+		a, aok := e.eval(st, call.Args[0]).(SliceV)
+		b, bok := e.eval(st, call.Args[1]).(SliceV)
+		if !aok || !bok {
+			e.fail(call, "disjoint needs slices")
+		}
+		return BoolV{Or(Ne(a.blk, b.blk), Eq(a.blk, I(0)))}
 	case "sameRef":
 		a := e.eval(st, call.Args[0])
 		b := e.eval(st, call.Args[1])
